@@ -509,7 +509,7 @@ var (
 )
 
 func run(c *enum.Ctx) {
-	c.Rule("breadth-first search over cycle histories on a real sorter: each transition is one whole cycle (push a value word, Finalise, k Pulls, Clear) from an alphabet with push counts 0,1,chunk-1,chunk,chunk+1,(chunk+2 for chunk 5),2chunk+1 (thorough: 2chunk, 3chunk+1), every value word over {1,2} up to length 3 (5) and every pull count in {0,1,half,all,all+1}; states are merged at cycle boundaries on a reflective key of the sorter (every field of the struct: scalars, slice shapes, channel contents, nil-ness of interfaces; strings and sync primitives skipped); run to closure per configuration (chunk 1,2,3,5 x AutoClear x concurrent x element type); reference model = sorted multiset; plus the size ladder: chunk sizes 2^k-1, 2^k, 2^k+1 (also 3*2^k, 10^j-1, 10^j, 10^j+1, 5*10^j) up to 2049 (thorough 4097) with one- and two-cycle histories around the chunk size, and 7..513 run files at chunk sizes 1 and 2; eight further element types (string, float, array, byte, structs, the library's filter.Hit with negative and >32-bit fields) sorted one after the other in the process, spilling and in memory; non-trivial = histories whose last cycle spills")
+	c.Rule("breadth-first search over cycle histories on a real sorter: each transition is one whole cycle (push a value word, Finalise, k Pulls, Clear) from an alphabet with push counts 0,1,chunk-1,chunk,chunk+1,(chunk+2 for chunk 5),2chunk+1 (thorough: 2chunk, 3chunk+1), every value word over {1,2} up to length 3 (5) and every pull count in {0,1,half,all,all+1}; states are merged at cycle boundaries on a reflective key of the sorter (every field of the struct: scalars, slice shapes, channel contents, nil-ness of interfaces; strings and sync primitives skipped); run to closure per configuration (chunk 1,2,3,5 x AutoClear x concurrent x element type); reference model = sorted multiset; plus the size ladder: chunk sizes 2^k-1, 2^k, 2^k+1 (also 3*2^k, 10^j-1, 10^j, 10^j+1, 5*10^j) up to 5001 (thorough 10001) with one- and two-cycle histories around the chunk size, and 7..513 run files at chunk sizes 1 and 2; eight further element types (string, float, array, byte, structs, the library's filter.Hit with negative and >32-bit fields) sorted one after the other in the process, spilling and in memory; non-trivial = histories whose last cycle spills")
 	c.Assume("protocol order push* finalise pull* clear; Clear implicit after EOF with AutoClear", "two histories with equal boundary keys have equal futures (the key is read from the real object; a missing field disables merging); histories of up to 2 (thorough: 3) cycles are all run without merging")
 	work := os.Getenv("VERIF_WORK")
 	if work == "" {
@@ -544,9 +544,9 @@ func run(c *enum.Ctx) {
 	// histories whose counts lie on both sides of the chunk size (and a little beyond: below the capacity
 	// a grown buffer would have), and chunk sizes 1 and 2 with 2^k-1, 2^k, 2^k+1 (also 3*2^k, 10^j-1, 10^j, 10^j+1, 5*10^j) values (many runs: 7..513
 	// run files); every cycle drained and checked
-	top := 2049
+	top := 5001
 	if !c.Quick {
-		top = 4097
+		top = 10001
 	}
 	type lj struct {
 		cfg config
